@@ -103,7 +103,7 @@ def fieldSat (c : Cfg) (name : Str) (tag : Option Str) (isSlice : Bool) (k : Opt
       else
         let o : Opts := effOpts po
         depOK o key m &&
-        match lookupKey c key m with
+        match lookupKey c (optInherit po) key m with
         | .error _ => false
         | .ok none =>
           if !o.default.isEmpty then dflt o.default v
@@ -194,7 +194,7 @@ def satFields (c : Cfg) : Fields → Obj → VFields → Bool
     match vs with
     | .cons n v vs' =>
       n == name
-      && fieldSat c name tag t.isSlice (derefKind t) m v (fun j v => satTy c.nest t j v) (fun v => satAbsent c t v)
+      && fieldSat c name tag t.isSlice (derefKind t) m v (fun j v => satTy (c.nestIn m) t j v) (fun v => satAbsent c t v)
            (fun d v => satDefault t d v) (fun v => isZero t v)
       && satFields c rest m vs'
     | .nil => false
@@ -286,8 +286,8 @@ def fieldOK (c : Cfg) (name : Str) (tag : Option Str) (isSlice : Bool) (m : Obj)
     | .ok (key, po) =>
       depOK (effOpts po) key m &&
       (key = "-".toList ||
-       (!optOutside po &&
-        match lookupKey c key m with
+       (
+        match lookupKey c (optInherit po) key m with
         | .error _ => false
         | .ok none =>
           if !(effOpts po).default.isEmpty then okDflt (effOpts po).default
@@ -339,7 +339,7 @@ def okAbsent (c : Cfg) : Ty → Bool
 def okFields (c : Cfg) : Fields → Obj → Bool
   | .nil, _ => true
   | .cons name tag t rest, m =>
-    fieldOK c name tag t.isSlice m (fun fs r opts j => okTy c.nest fs r opts t j) (okAbsent c t)
+    fieldOK c name tag t.isSlice m (fun fs r opts j => okTy (c.nestIn m) fs r opts t j) (okAbsent c t)
       (fun d => match defaultVal c.repaired t d with | .ok _ => true | .error _ => false)
     && okFields c rest m
 end
